@@ -36,6 +36,7 @@ near = opt("--near", "")
 summary = opt("--summary", "")
 checks = opt("--checks", "ALL")
 jobs = int(opt("--jobs", "2"))
+base = opt("--base", "HEAD")  # a patch written before a later fix: commit of /repo it applies to
 refile = "--refile" in args
 args = [a for a in args if a != "--refile"]
 name = args[0]
@@ -47,7 +48,7 @@ old = json.load(open(dest + "/meta.json")) if os.path.exists(dest + "/meta.json"
 
 wt = tempfile.mkdtemp(prefix="benwt_", dir="/tmp")
 os.rmdir(wt)
-subprocess.run(["git", "-C", "/repo", "worktree", "add", "-q", "--detach", wt, "HEAD"], check=True)
+subprocess.run(["git", "-C", "/repo", "worktree", "add", "-q", "--detach", wt, old.get("base", base) if refile else base], check=True)
 head = subprocess.run(["git", "-C", "/verif", "rev-parse", "--short", "HEAD"], capture_output=True, text=True).stdout.strip()
 meta = {
     "kind": "property-preserving change (false-alarm probe)",
@@ -56,6 +57,9 @@ meta = {
     "source": "sub-agent, independent of /verif",
     "ran": {},
 }
+if (old.get("base", base) if refile else base) != "HEAD":
+    meta["base"] = old.get("base", base) if refile else base
+    meta["base_note"] = "written against the tree before the fixes 01ec3a7 (C06, float constraint matrix) and 3f2dd76 (C03, vanishing pilot) and evaluated on that tree: the two signatures of those defects (C06 exception:TypeError on template emptyterm, C03/C14 exception:ZeroDivisionError) are expected there and are not alarms about this change"
 if "verdict" in old:
     meta["verdict"] = old["verdict"]
 ok = True
